@@ -758,9 +758,30 @@ func idsNotFabricated(p *Prog, r *Reporter) {
 						}
 					}
 					if al, ok := u.X.(*ssa.Alloc); ok {
-						// composite literal ID{id: …}
-						_ = al
+						// a spilled loop variable (stored whole from an element of the id list), or a composite literal ID{id: …}
 						src = "an ID built in place"
+						whole, fromList := 0, 0
+						for _, ref := range *al.Referrers() {
+							st, ok := ref.(*ssa.Store)
+							if !ok || st.Addr != al {
+								continue
+							}
+							whole++
+							if lu, ok := st.Val.(*ssa.UnOp); ok && lu.Op == token.MUL {
+								if ia, ok := lu.X.(*ssa.IndexAddr); ok {
+									pth := apath(ia.X)
+									_, isP := ia.X.(*ssa.Parameter)
+									if strings.HasSuffix(pth, ".Ids") || strings.Contains(pth, "call(Components)") || isP {
+										fromList++
+										src = pth
+									}
+								}
+							}
+							if _, ok := st.Val.(*ssa.Parameter); ok {
+								fromList++
+							}
+						}
+						okc = whole > 0 && whole == fromList
 					}
 				}
 				if _, ok := v.(*ssa.Parameter); ok {
